@@ -110,13 +110,15 @@ def _one(raw):
             finally:
                 sys.stdout, sys.stderr = old
                 sys.modules.pop(modname, None)
-            if code != case['exit']:
-                bad.append(('exit_status', case['exit'], code))
+            # the property is about zero / non-zero of the PROCESS status: what main() returns goes to sys.exit, which keeps the low 8 bits
+            status = (int(code) % 256) if isinstance(code, (int, bool)) else (0 if code is None else 1)
+            if (status != 0) != (case['exit'] != 0):
+                bad.append(('exit_status', 'non-zero' if case['exit'] else 'zero', code))
             if _J['cli'] and rot % _J['cli'] == 0:
                 env = dict(os.environ, XDV_E='1')
                 p = subprocess.run([common.PY, '-m', 'xdoctest'] + argv[1:], cwd=_J['dir'], env=env, stdout=subprocess.PIPE, stderr=subprocess.STDOUT, text=True)
-                if p.returncode != case['exit']:
-                    bad.append(('cli_exit_status', case['exit'], p.returncode))
+                if (p.returncode != 0) != (case['exit'] != 0):
+                    bad.append(('cli_exit_status', 'non-zero' if case['exit'] else 'zero', p.returncode))
                 info_cli = True
     finally:
         os.unlink(path)
@@ -130,6 +132,27 @@ def _one(raw):
 
 def sig(info):
     return {'kind': 'native_runner', 'fields': ','.join(sorted({b[0].split('[')[0].split('(')[0] for b in info['bad']}))}
+
+
+def many_failures_phase(out):
+    """the exit status is a process status (8 bits): a module with exactly 256 failing doctests (and with 255, 257) must still exit non-zero"""
+    d = common.scratch_dir('xdv-c10many')
+    for n in (255, 256, 257):
+        modname = 'xdvmany_%d_%d' % (os.getpid(), n)
+        path = os.path.join(d, modname + '.py')
+        with open(path, 'w') as f:
+            f.write('def ok():\n    """\n    >>> 1 + 1\n    2\n    """\n')
+            for i in range(n):
+                f.write('\n\ndef bad%d():\n    """\n    >>> %d\n    -1\n    """\n' % (i, i))
+        env = dict(os.environ, PYTHONPATH=os.pathsep.join([common.SRC] + ([os.environ['PYTHONPATH']] if os.environ.get('PYTHONPATH') else [])))
+        p = subprocess.run([common.PY, '-m', 'xdoctest', path, 'all', '--verbose', '0'], cwd=d, env=env, stdout=subprocess.PIPE, stderr=subprocess.STDOUT, text=True)
+        out.traces += 1
+        out.evaluations += 1
+        if p.returncode == 0:
+            out.violation({'kind': 'native_runner', 'fields': 'cli_exit_status', 'failing_doctests': n},
+                          {'module': '%d failing doctests and one passing' % n, 'exit_status': p.returncode, 'output_tail': p.stdout[-600:],
+                           'explanation': 'the command exits 0 although doctests failed'})
+    out.extra['many_failures_modules'] = [255, 256, 257]
 
 
 def session_trace_phase(out, raws, tier):
@@ -217,6 +240,7 @@ def run(tier):
         if 'bad' in info:
             out.violation(sig(info), {'module_source': info['text'], 'case': info['case'], 'command': info['command'], 'disagreements': info['bad']})
     session_trace_phase(out, raws, tier)
+    many_failures_phase(out)
     common.cleanup_scratch()
     for dev in ('NoDisabledFilter', 'FailedNotRecorded', 'ExitOnlyIfTwoFail'):
         sessionlib.deviation_must_fail(out, dev, kinds=KINDS, maxdocs=2, commands=('all', 'named'), fronts=('native',))
